@@ -211,6 +211,14 @@ int scen_convert(cmd_t * c) {
 		ev_begin("eng"); ev_str("op", "lang"); ev_int("eid", i); ev_int("lang", eng[i].lang); ev_end();
 		return 1;
 	}
+	if (!strcmp(n, "e_opml2text")) {
+		/* the outline held by a live engine is turned into text (the engine keeps its source and its options): e_opml2text <eid> [itmz] */
+		int i = (int)arg_long(&a[0]) % MAXENG; if (!eng[i].used) return 0;
+		DString * r = (a[1].n && !strcmp(a[1].s, "itmz")) ? mmd_engine_convert_itmz_to_text(eng[i].e) : mmd_engine_convert_opml_to_text(eng[i].e);
+		ev_begin("eng"); ev_str("op", "opml2text"); ev_int("eid", i); ev_bool("null", r == NULL); if (r) ev_digest("digest", r->str, r->currentStringLength); ev_end();
+		if (r) d_string_free(r, true);
+		return 1;
+	}
 	if (!strcmp(n, "e_settext")) {
 		int i = (int)arg_long(&a[0]) % MAXENG; srcbuf * sb = src_get(a[1].s); if (!sb || !eng[i].used) return 0;
 		d_string_erase(eng[i].d, 0, (size_t)-1);
